@@ -113,6 +113,33 @@ def run(corrupt=None):
                              {"state": absstate.to_json(key), "expected_count": rec["count"], "observed_log_pdf": lp})
             continue
         check_state(ck, rec, RPD, data, corrupt=corrupt)
+    # histories: the reported density must stay right on trees that were edited in place after earlier queries
+    import numpy as np
+    from .. import treeadt
+    counts = {absstate.canon(r["st"]): r["count"] for r in recs}
+    hist_checked = [0]
+
+    def on_state(cur, sub, state, act):
+        out = []
+        for t in (cur, sub):
+            k = absstate.quick_key(t)
+            if k in counts and absstate.data_ids(k):
+                lp = float(RPD.log_pdf(t))
+                hist_checked[0] += 1
+                if abs(lp + math.log(counts[k])) > 1e-9:
+                    out.append("log_pdf(%s) = %.12g after an in-place edit history, expected -log(%d)" % (absstate.key_str(k), lp, counts[k]))
+        return out
+
+    rs = np.random.RandomState(ck.seed + 5)
+    wdata = absstate.make_data(4, kind="flat", grid=3)
+    for w in range(60 if not thorough else 300):
+        _, issues = treeadt.walk(wdata, [0, 1, 2, 3], 50, rs, None, on_state=on_state)
+        for kind_, it in issues:
+            if kind_ == "callback":
+                ck.violation("C09|log_pdf|after_edit_history", it["error"] + " (last action %s)" % it["act"]["name"], it)
+                break
+    ck.evaluations += hist_checked[0]
+    ck.extra["log_pdf_checks_along_edit_histories"] = hist_checked[0]
     ck.rule = ("every forest on every subset of %d data points with any outlier subset (TLC-enumerated); "
                "non-trivial = forests with more than one compatible order" % n)
     ck.exhaustive = True
